@@ -155,12 +155,30 @@ let p_handle (p : string) : string =
           (int_of_nat (p_sel_size cfg s.st_sel.s_c)) (int_of_nat (p_sel_size cfg s.st_sel.s_w))))
       [("e", true); ("s", false)];
     let agree = match !logs with [a; b] -> a = b | _ -> false in
+    (* guards of theorem c16_backends_agree (extracted boolean functions) *)
+    let gok = p_cfg_ok cfg && p_ops_ok cfg ops in
+    (* proposed finding C16-epoll-write-skipped-after-reregister: all guards but G4 hold (only own-descriptor
+       actions, no delete_on_close, no write registration on a pipe), some read/close script does RemoveRead,
+       RemoveWrite and AddWrite, and the two back-ends' logs differ for that descriptor *)
+    let target = function PAAddR x | PAAddW x | PARemR x | PARemW x -> x in
+    let scripts dc = dc.pc_rs @ dc.pc_ws @ dc.pc_cs in
+    let is_addw = function PAAddW _ -> true | _ -> false in
+    let g123 = p_ops_ok cfg ops && List.for_all (fun x -> x) (List.mapi (fun i dc ->
+        List.for_all (fun a -> target a = nat_of_int i) (scripts dc) && not dc.pc_doc
+        && (dc.pc_kind = PSock || not (List.exists is_addw (scripts dc)))) cfg) in
+    let g4_fails i = let dc = List.nth cfg i in
+      not (p_script_ok dc.pc_rs && p_script_ok dc.pc_cs) in
+    let known2 = match !logs with
+      | [ls; le] -> g123 && List.exists (fun i -> g4_fails i && List.nth ls i <> List.nth le i) (List.init n (fun i -> i))
+      | _ -> false in
+    if known2 then Buffer.add_string b "known=C16-epoll-write-skipped-after-reregister;";
+    if gok && not agree then Buffer.add_string b "theorem=VIOLATED-c16_backends_agree;";
     Buffer.add_string b (Printf.sprintf "agree=%s;" (bool01 agree));
     let all = String.concat "," (List.concat !logs) in
     let has c = String.contains all c in
     Buffer.add_string b (Printf.sprintf "class=%s%s%s%s%s" cls
       (if has 'R' then "+r" else "") (if has 'W' then "+w" else "") (if has 'C' then "+c" else "")
-      (if agree then "" else "+differ"));
+      (if agree then "" else "+differ") ^ (if gok then "+guards" else ""));
     Buffer.contents b
   | _ -> "bad-payload"
 
